@@ -712,6 +712,9 @@ func (s *Serializer) Deserialize(src []byte, dst *ParsedJson) (*ParsedJson, erro
 	if stringsErr != nil {
 		return dst, fmt.Errorf("reading strings: %w", stringsErr)
 	}
+	if msgErr != nil {
+		return dst, fmt.Errorf("reading message: %w", msgErr)
+	}
 	return dst, nil
 }
 
